@@ -531,15 +531,16 @@ HEADER_CAPA = ("From Coq Require Import PrimFloat List Arith Bool.\n"
 
 def capa_float_stream(ctx, count):
     """CAPA / MVCAPA with the real L2 saving on float data against the generic dynamic programme on primitive floats (Check/GenericCapaCheck.v).
-    Configurations are restricted to those whose floating-point OPERATION ORDER the model shares with NumPy: one or two columns when the penalised saving is a plain
-    row sum (a sum of at most two terms has one order), any number of columns when the per-component penalties differ (sort + sequential cumsum)."""
+    Configurations are restricted to those whose floating-point OPERATION ORDER the model shares with NumPy: fewer than 8 columns when the penalised saving is a plain
+    row sum (NumPy then adds sequentially from the left, as the model's gsum does; from 8 columns on it adds pairwise), any number of columns when the per-component penalties
+    differ (sort + sequential cumsum)."""
     from skchange.anomaly_detectors import CAPA, MVCAPA
     from skchange.anomaly_scores import L2Saving
     rng = ctx.rng
     terms, metas = [], []
     for it in range(count):
         kind = ["capa", "mvcapa-unequal", "mvcapa-equal"][it % 3]
-        p = rng.choice([1, 2]) if kind != "mvcapa-unequal" else rng.choice([2, 3, 4])
+        p = rng.choice([1, 2, 3, 5, 7]) if kind != "mvcapa-unequal" else rng.choice([2, 3, 4])     # fewer than 8: NumPy's row sum is sequential from the left, as the model's gsum
         n = rng.randint(8, 24)
         m = rng.choice([2, 3])
         M = rng.choice([m + 2, 8, n])
@@ -638,6 +639,50 @@ def capa_l2_end_to_end_stream(ctx, count):
         ctx.mismatch(f"CAPA(L2Saving) on one float column (n={mt['n']}, m={mt['min_segment_length']}, M={mt['max_segment_length']}): the binary64 kernel twin l2_saving_F followed by the "
                      f"generic CAPA loop on primitive floats does not reproduce the implementation from the DATA (anomalies {mt['impl_anomalies']} / scores bit for bit)", mt,
                      {"what": "float-end-to-end-mismatch", "detector": "CAPA"})
+
+
+def capa_l2_columns_end_to_end_stream(ctx, count):
+    """END TO END in binary64 for SEVERAL columns (Properties/C03_binary64_l2_columns.v): CAPA (all per-component penalties zero) with the L2 saving on 2..7 float columns from
+    the DATA; cumulative scores bit for bit, anomalies, and the six boolean premises of the end-to-end theorem."""
+    from skchange.anomaly_detectors import CAPA
+    rng = ctx.rng
+    terms, metas = [], []
+    for it in range(count):
+        n = rng.randint(8, 20)
+        m = rng.choice([2, 3])
+        M = rng.choice([m + 2, 8, n])
+        p = rng.choice([2, 3, 4, 7])
+        X = np.asarray([[rng.gauss(0, 1) for _ in range(p)] for _ in range(n)]) * rng.choice([1.0, 1.0, 0.01, 50.0])
+        sc_ = float(np.std(X)) + 1e-12
+        a = rng.randint(1, n - m - 1)
+        X[a:a + rng.randint(m, min(M, n - a)), : rng.randint(1, p)] += rng.choice([3.0, -4.0]) * sc_
+        X[rng.randrange(n), rng.randrange(p)] += rng.choice([7.0, -9.0]) * sc_
+        ac, ap = float(rng.choice([1.5, 4.25, 9.0])) * p * sc_ ** 2, float(rng.choice([2.5, 6.0, 12.75])) * p * sc_ ** 2
+        d = CAPA(min_segment_length=m, max_segment_length=M).fit(X)
+        d.collective_penalty_, d.point_penalty_ = ac, ap
+        y = d.predict(X)
+        scores = d.transform_scores(X).to_numpy().reshape(-1)
+        iv = [(int(l), int(r)) for l, r in zip(y["ilocs"].array.left, y["ilocs"].array.right)]
+        coll, pts = [t for t in iv if t[1] - t[0] > 1], [t for t in iv if t[1] - t[0] == 1]
+        bf = 2.0 ** math.ceil(math.log2(float(np.max(np.abs(X)))) + 1e-9)
+        magf = 2.0 ** math.ceil(math.log2(16.0 * (float(np.sum(np.sum(np.abs(X), axis=0) ** 2)) + (abs(ac) + abs(ap)) * (n + 1) + 1e-300)))
+        terms.append("{| h2_cols := %s; h2_n := %d%%nat; h2_ac := %s; h2_ap := %s; h2_m := %d%%nat; h2_M := %d%%nat; h2_mag := %s; h2_b := %s; h2_scores := %s; h2_coll := %s; h2_pts := %s |}"
+                     % (coq_list([flist(X[:, j]) for j in range(p)]), n, fl(ac), fl(ap), m, M, fl(magf), fl(bf), flist(scores), pairs_nat(coll), pairs_nat(pts)))
+        metas.append({"detector": "CAPA", "saving": "L2Saving", "n": n, "p": p, "min_segment_length": m, "max_segment_length": M, "alpha_collective": ac, "alpha_point": ap, "X": X.tolist(),
+                      "Magf": magf, "Bf": bf, "impl_anomalies": [list(t) for t in iv], "impl_final_score": float(scores[-1])})
+        ctx.case({"float": "capa-l2-cols-e2e", "it": it, "n": n, "m": m, "p": p, "x0": float(X[0, 0])}, nontrivial=len(iv) > 0,
+                 sample={"stream": "binary64 end-to-end CAPA(L2Saving), several columns", "n": n, "p": p, "m": m, "M": M, "impl_anomalies": iv})
+        ctx.count("float_stream", f"capa-l2-end-to-end:{p} columns")
+    bad = coq_bad_cases(ctx.cid, HEADER_RUN, "fcl2m_case", "fcl2m_case_ok", terms, shard=8, tag="fcl2m")
+    noprem = coq_bad_cases(ctx.cid, HEADER_RUN, "fcl2m_case", "fcl2m_case_premise", terms, shard=8, tag="fcl2mprem")
+    ctx.notes["binary64_l2_columns_end_to_end_premises"] = f"all six boolean premises of C03_binary64_l2_columns_end_to_end hold on {len(terms) - len(noprem)} of {len(terms)} cases"
+    if len(noprem) > len(terms) // 10:
+        ctx.mismatch(f"the premises of the binary64 several-column end-to-end theorem fail on {len(noprem)} of {len(terms)} ordinary cases", {"first": metas[noprem[0]]}, {"what": "float-e2e-premise"})
+    for i in bad[:20]:
+        mt = metas[i]
+        ctx.mismatch(f"CAPA(L2Saving) on {mt['p']} float columns (n={mt['n']}, m={mt['min_segment_length']}, M={mt['max_segment_length']}): the per-column kernel twins l2_saving_F, "
+                     f"added from the left as NumPy's row sum does, followed by the generic CAPA loop on primitive floats do not reproduce the implementation from the DATA (anomalies "
+                     f"{mt['impl_anomalies']} / scores bit for bit)", mt, {"what": "float-end-to-end-mismatch", "detector": "CAPA"})
 
 
 # ------------------------------------------------------------------------------------------------------------------
